@@ -339,9 +339,14 @@ func main() {
 	if *progress != "" {
 		prog, _ = os.OpenFile(*progress, os.O_CREATE|os.O_WRONLY, 0644)
 	}
-	totalOps, anomalies, slowHistories := 0, 0, 0
+	totalOps, anomalies, slowHistories, deadlocks := 0, 0, 0, 0
 
 	for hi := 0; hi < *nh; hi++ {
+		if deadlocks >= 2 {
+			// every deadlocked history costs 65 s of waiting and leaves wedged goroutines behind: two witnesses per process are enough
+			*nh = hi
+			break
+		}
 		h := *hbase + hi
 		if prog != nil {
 			var b [8]byte
@@ -480,6 +485,7 @@ func main() {
 					all = append(all, fmt.Sprintf("c%d: %s", c+1, strings.Join(o.Argv, " ")))
 				}
 			}
+			deadlocks++
 			report("deadlock", "clients did not finish within 65 s; stripes held: "+strings.Join(held, ",")+"; keys "+strings.Join(keys, ",")+"; programme: "+strings.Join(all, " | "), st)
 			continue // goroutines are wedged; abandon this server
 		}
